@@ -91,7 +91,17 @@ type XCtx struct {
 }
 
 // XBatch is a batching configuration (items).
-type XBatch struct{ Min, Max, FlushMS int }
+//
+// Min and Max are in the unit of the queue's sizer (sending_queue::batch: items
+// or bytes; the deprecated option: items).  Tiny is a label only: how Max was
+// drawn ("one-item": items sizer with max_size 1; "all-oversize": bytes sizer
+// with a max_size of a few bytes, below every single item;
+// "below-largest-item": bytes sizer with a max_size below the encoding of the
+// largest single item with its resource / scope / metric envelope).
+type XBatch struct {
+	Min, Max, FlushMS int
+	Tiny              string `json:",omitempty"`
+}
 
 // XRetry is the retry configuration; MaxElapsedMS 0 = never give up.
 type XRetry struct{ InitialMS, MaxElapsedMS int }
@@ -128,7 +138,9 @@ func genX(t *rapid.T) XScript {
 		s.Wait = shape == "memory-wait"
 	case "memory-batch", "memory-wait-batch":
 		s.Queue = "memory"
-		s.Sizer = "items" // the bytes sizer is excluded: listed C04 findings make MergeSplit loop
+		// items or bytes (the non-terminating splits of the bytes sizer have been repaired in /repo; every
+		// case runs under a hang guard anyway)
+		s.Sizer = rapid.SampledFrom([]string{"items", "items", "bytes", "bytes"}).Draw(t, "sizer")
 		s.Batch = &XBatch{}
 		s.Wait = shape == "memory-wait-batch"
 	case "memory-legacy":
@@ -188,9 +200,30 @@ func genX(t *rapid.T) XScript {
 			continue
 		}
 		b.FlushMS = rapid.SampledFrom([]int{3, 10}).Draw(t, "flush")
-		b.Min = rapid.IntRange(0, total/2+1).Draw(t, "min")
-		if rapid.IntRange(0, 3).Draw(t, "nomax") > 0 {
-			b.Max = rapid.IntRange(max(1, b.Min), max(1, b.Min)+total/2+1).Draw(t, "max")
+		bytesSized := b == s.Batch && s.Sizer == "bytes"
+		unit := total // sum of all payloads in the batcher's unit
+		if bytesSized {
+			unit = totalBytes
+		}
+		switch mode := rapid.IntRange(0, 9).Draw(t, "maxmode"); {
+		case mode < 2: // no upper bound
+			b.Min = rapid.IntRange(0, unit/2+1).Draw(t, "min")
+		case mode < 4 && !bytesSized: // every batch holds one item
+			b.Max, b.Tiny = 1, "one-item"
+			b.Min = rapid.IntRange(0, 1).Draw(t, "min")
+		case mode < 4: // a few bytes: every single item is larger than max_size
+			b.Max, b.Tiny = rapid.IntRange(1, 16).Draw(t, "max"), "all-oversize"
+			b.Min = rapid.IntRange(0, b.Max).Draw(t, "min")
+		case mode < 7 && bytesSized: // below the largest single item: some or all items are oversize
+			if largest := largestItemBytes(s.Signal, s.Payloads); largest > 1 {
+				b.Max, b.Tiny = rapid.IntRange(1, largest-1).Draw(t, "max"), "below-largest-item"
+				b.Min = rapid.IntRange(0, b.Max).Draw(t, "min")
+				break
+			}
+			fallthrough
+		default:
+			b.Min = rapid.IntRange(0, unit/2+1).Draw(t, "min")
+			b.Max = rapid.IntRange(max(1, b.Min), max(1, b.Min)+unit/2+1).Draw(t, "max")
 		}
 	}
 	// a retry that never gives up is only generated where nothing can wait for
@@ -904,10 +937,29 @@ func runXInner(c *vt.C, s *XScript) (nontrivial bool, f *vt.Finding) {
 		c.Class("wait-for-result")
 	}
 	if s.Batch != nil {
-		c.Class("batch")
+		c.Class("batch", "batch:sizer-"+s.Sizer)
 	}
 	if s.Legacy != nil {
 		c.Class("legacy-batcher")
+	}
+	for _, b := range []*XBatch{s.Batch, s.Legacy} {
+		if b == nil || b.Tiny == "" {
+			continue
+		}
+		c.Class("batch:max_size-" + b.Tiny)
+		// observed: a call's request of several items reached the export function one item at a time
+		for _, cl := range calls {
+			singles := 0
+			for _, id := range cl.ids {
+				if ci, ok := chainOf[id]; ok && len(chains[ci].first) == 1 {
+					singles++
+				}
+			}
+			if singles >= 2 {
+				c.Class("batch:request-exported-item-by-item/" + s.Sizer + "/" + s.Signal)
+				break
+			}
+		}
 	}
 	if s.Retry != nil {
 		c.Class("retry")
@@ -1165,6 +1217,27 @@ func storedRequests(rec *xh.Recorder, signal string) ([]storedReq, *vt.Finding) 
 		out = append(out, storedReq{key: kk, ids: idsOf(v)})
 	}
 	return out, nil
+}
+
+// largestItemBytes is the bytes-sizer size of the largest single item of the
+// payloads together with its envelope (the payload with every other item
+// removed; the emptied containers of the other items stay, so it is a slight
+// over-estimate - it only steers the generator).
+func largestItemBytes(signal string, payloads [][]byte) int {
+	bs := xh.Settings(signal).Sizers[exporterhelper.RequestSizerTypeBytes]
+	largest := 0
+	for _, p := range payloads {
+		v, err := sig.Decode(signal, p)
+		if err != nil {
+			continue
+		}
+		for _, id := range idsOf(v) {
+			one := sig.Clone(v)
+			removeItems(one, func(x int64) bool { return x != id })
+			largest = max(largest, int(bs.Sizeof(xh.Request(signal, sig.Encode(one)))))
+		}
+	}
+	return largest
 }
 
 // subsetSum reports whether some subset of xs adds up to target.
